@@ -1549,6 +1549,7 @@ func (g *Gen) genQuery(w *World, ntx int) QuerySpec {
 		q.Limit = uint64(50 + g.R.Intn(50))
 	}
 	q.Filter = pick(g.R, []string{"", "", "owner", "status", "moniker", "purchaser", "both"})
+	q.Up = g.Prop == "C20" && g.pct(12)
 	q.MidTx = -1
 	if g.pct(35) && ntx > 0 {
 		q.MidTx = g.R.Intn(ntx + 1)
